@@ -408,4 +408,12 @@ def run(repo, tier):
     from .common import run_label_eq
     if run_label_eq(repo, res, {'photutils.segmentation.core', 'photutils.segmentation.catalog'}) < 3:
         raise AnalysisError('vanished anchor: per-label loops over (label, slices)')
+    from .common import apply_specs
+    apply_specs(repo, res, [
+        ('photutils.segmentation.core.SegmentationImage.remove_border_labels', 'stmt', 'border_mask[border_mask.shape[0] - border_width:] = True',
+         'far border strip sized from the axis currently swapped to the front (border_mask.shape[0]), not from a fixed image axis'),
+        ('photutils.segmentation.core.SegmentationImage.remove_border_labels', 'stmt', 'border_mask[:border_width] = True', 'near border strip'),
+        ('photutils.segmentation.core.SegmentationImage._geo_polygons', 'stmt', "polygons = list(shapes(self.data.astype('int32'), connectivity=8))",
+         'polygon outlines traced with the 8-connectivity that detect_sources uses by default (one outline per 8-connected region)'),
+    ])
     return res
